@@ -553,4 +553,40 @@ def iso8601 (d : UniformDate) : Out Bytes := format d.raw .iso8601
 
 end UniformDate
 
+/-! ### serde glue (date.rs `mod datederive`, feature `derive`) -/
+
+/-- the `visit_*` call a deserializer makes on the date visitor after `deserialize_any`.
+`str` stands for `visit_str`, `visit_borrowed_str`, `visit_string` (overridden to forward to
+`visit_str`) and `visit_char` (serde's default encodes the char and calls `visit_str`);
+`other` for every method the visitors do not override (`visit_bool`, `visit_i8/i16/i64`
+— serde forwards the small ones to `visit_i64`, not to `visit_i32` —, `visit_u8…u64`,
+`visit_f32/f64`, `visit_bytes`, `visit_unit`, `visit_seq`, `visit_map`, …), whose serde
+default is `Err(invalid_type)`. -/
+inductive LeafToken where
+  | i32 (v : Int)
+  | str (s : Bytes)
+  | other
+  deriving DecidableEq, Repr
+
+/-- date.rs `DateVisitor`: `visit_i32 → Date::from_binary`, `visit_str → Date::parse` -/
+def Date.visit : LeafToken → Out Date
+  | .i32 v => Date.fromBinary v
+  | .str s => Date.parse s
+  | .other => .err
+
+/-- date.rs `DateHourVisitor`: `visit_i32 → DateHour::from_binary`, `visit_str → DateHour::parse` -/
+def DateHour.visit : LeafToken → Out DateHour
+  | .i32 v => DateHour.fromBinary v
+  | .str s => DateHour.parse s
+  | .other => .err
+
+/-- date.rs `UniformDateVisitor`: only `visit_str → UniformDate::parse` (no `visit_i32`) -/
+def UniformDate.visit : LeafToken → Out UniformDate
+  | .str s => UniformDate.parse s
+  | _ => .err
+
+/-- `Serialize for Date` / `DateHour`: `serialize_str(self.iso_8601().to_string())` -/
+def Date.serialize (d : Date) : Out Bytes := d.iso8601
+def DateHour.serialize (d : DateHour) : Out Bytes := d.iso8601
+
 end Jomini.Date
